@@ -19,6 +19,7 @@ func runC17(c *Ctx) {
 	c.Clause("C17.4 resources: the post-loop part of run closes crypto setup, send queue, handles the close error and stops the timer; every time.NewTimer result is stopped (deferred or on the exit path) or owned by a field that is; dial cancellation waits for the run goroutine")
 	c.Clause("C17.5 idle timeout = start + max(idleTimeout, 3·PTO), checked with !now.Before(·); keep-alive interval shape")
 	c.Clause("C17.6 while Transport.mutex is held no function is called that can block on connection / server teardown (which itself needs that mutex)")
+	c.Clause("C17.7 the closed-connection stand-in retransmits CONNECTION_CLOSE with exponential back-off: the packet counter is incremented atomically per packet and the retransmission is reached only when the count is a power of two; the remote-close stand-in ignores packets; ReplaceWithClosed picks the local stand-in exactly when a CONNECTION_CLOSE packet exists")
 	c.NotCovered("promptness; leak-freedom as such; timeout accuracy")
 	c.NotCovered("lost wake-ups between a state change and its signal (lock-protected predicate analysis is not armed)")
 
@@ -28,6 +29,7 @@ func runC17(c *Ctx) {
 	c.rule("C17.4", func() { c17Resources(c) })
 	c.rule("C17.5", func() { c17Idle(c) })
 	c.rule("C17.6", func() { c17NoWaitUnderTransportMutex(c) })
+	c.rule("C17.7", func() { c17ClosedStandIn(c) })
 }
 
 // waitExceptions: blocking sites that are not woken by a shutdown-reachable signal, with the reason why that is right.
@@ -1188,3 +1190,53 @@ func c17NoWaitUnderTransportMutex(c *Ctx) {
 	}
 	c.Floor(R, "Transport.mutex acquisitions", nLock, 8)
 }
+
+func c17ClosedStandIn(c *Ctx) {
+	const R = "C17.7"
+	h := c.fn("", "closedLocalConn", "handlePacket")
+	send := c.fld("", "closedLocalConn", "sendPacket")
+	counter := c.fld("", "closedLocalConn", "counter")
+	ones := c.obj("math/bits", "", "OnesCount32")
+	// n := counter.Add(1)
+	var addCall ssa.Value
+	eachInstr(h, func(in ssa.Instruction) {
+		cl, ok := in.(*ssa.Call)
+		if !ok || len(cl.Call.Args) != 2 {
+			return
+		}
+		o := calleeObj(&cl.Call)
+		fa, isFA := cl.Call.Args[0].(*ssa.FieldAddr)
+		if o != nil && o.Name() == "Add" && isFA && fieldOfAddr(fa) == counter && ConstI(1)(cl.Call.Args[1]) {
+			addCall = cl
+		}
+	})
+	c.Check(addCall != nil, R, "count:every packet increments the counter by one, atomically", c.P.Pos(h.Pos()), "concurrent packets for a closed connection are each counted once")
+	c.Floor(R, "retransmissions in closedLocalConn.handlePacket", countInstr(h, callsFieldFunc(send)), 1)
+	c.cut(R, "backoff:CONNECTION_CLOSE is retransmitted only for the 1st, 2nd, 4th, 8th … packet", &Cut{Fn: h, Target: callsFieldFunc(send),
+		Edge: EdgeRel(Rel{Op: token.EQL, X: func(v ssa.Value) bool {
+			cl, ok := stripConv(v).(*ssa.Call)
+			return ok && calleeObj(&cl.Call) == ones && addCall != nil && stripConv(cl.Call.Args[0]) == addCall
+		}, Y: ConstI(1)}, false)},
+		"exponential back-off: the retransmission is reached only when the new count has exactly one bit set")
+	// the remote-close stand-in does nothing
+	r := c.fn("", "closedRemoteConn", "handlePacket")
+	nCalls := 0
+	eachInstr(r, func(in ssa.Instruction) {
+		if _, ok := in.(ssa.CallInstruction); ok {
+			nCalls++
+		}
+	})
+	c.Check(nCalls == 0, R, "ignore:packets for a remotely closed connection are absorbed", c.P.Pos(r.Pos()), "delayed packets after the peer's CONNECTION_CLOSE are ignored")
+	// ReplaceWithClosed: local stand-in iff a CONNECTION_CLOSE packet is given
+	rw := c.fn("", "packetHandlerMap", "ReplaceWithClosed")
+	ncl := c.obj("", "", "newClosedLocalConn")
+	ncr := c.obj("", "", "newClosedRemoteConn")
+	isNilPkt := Rel{Op: token.EQL, X: LenOrNilOf(ParamV("connClosePacket")), Y: Any()}
+	_ = isNilPkt
+	c.cut(R, "select:local stand-in only with a CONNECTION_CLOSE packet", &Cut{Fn: rw, Target: CallsTo(ncl), Edge: EdgeRel(Rel{Op: token.NEQ, X: ParamV("connClosePacket"), Y: IsNil()}, false)}, "the retransmitting stand-in is installed when this endpoint closed and has a packet to repeat")
+	c.cut(R, "select:absorbing stand-in without a packet", &Cut{Fn: rw, Target: CallsTo(ncr), Edge: EdgeRel(Rel{Op: token.EQL, X: ParamV("connClosePacket"), Y: IsNil()}, false)}, "after a remote close nothing is retransmitted")
+	c.Floor(R, "stand-in constructors used in ReplaceWithClosed", countInstr(rw, CallsTo(ncl))+countInstr(rw, CallsTo(ncr)), 2)
+}
+
+// LenOrNilOf is a placeholder matcher (the packet parameter itself).
+func LenOrNilOf(x VP) VP { return x }
